@@ -14,7 +14,7 @@ Prop == IOEnv.PROP
 VARIABLES l, item
 tvars == <<l, item>>
 Has(r, k) == k \in DOMAIN r
-Readers == {"byte-le", "byte-be", "sample", "iter", "channel", "path"}     \* "path": the readers opened by file name
+Readers == {"byte-le", "byte-be", "byte-wave", "sample", "iter", "channel", "path"}     \* "path": the readers opened by file name; "byte-wave": a caller-defined byte order
 Rej(rule, e) == PrintT(<<"REJECT", item.id, l, rule, e.api>>)
 
 Expected(m) == CASE m = "good" -> "MD5Match" [] m = "bad" -> "MD5Mismatch" [] OTHER -> "NoMD5"
